@@ -90,7 +90,7 @@ focus("decls",
            ParamNames=["p", "q"], MemberNames=["m", "n"], WordSizes=nset([1, 16]), Files="<- Files_all"),
       dict(Enabled=DECL_EN, FlagSets="<- FlagSets_all", MaxDecls=2, MaxParams=3, MaxMembers=3, MaxStmts=2, MaxNodes=9,
            ParamNames=["p", "q"], MemberNames=["m", "n"], WordSizes=nset([1, 16]), Files="<- Files_all"))
-# --- word sizes; the struct member list without its last comma (accepted by generation 1, not shown in the documents)
+# --- word sizes; the struct member list without its last comma (tests/samples/valid/view_aliasing.pn is written that way)
 focus("loose",
       dict(Enabled=["Module", "Struct", "Word", "Member", "TyPrim"], MaxMembers=2, MaxNodes=6, LooseMembers="TRUE",
            MemberNames=["m", "n"], WordSizes=nset([1, 2, 4, 8, 16])))
